@@ -3,7 +3,7 @@ Used to decide whether a call term may be compared for equality without a site t
 from . import mir as M
 
 PURE_STD_PREFIXES = (
-    "core::mem::size_of", "core::mem::align_of", "core::mem::size_of_val",
+    "core::mem::size_of", "core::ptr::eq", "core::ptr::addr_eq", "core::mem::align_of", "core::mem::size_of_val",
     "core::slice::<impl [T]>::len", "core::slice::<impl [T]>::as_ptr", "core::slice::<impl [T]>::get",
     "core::slice::<impl [T]>::iter", "core::slice::<impl [T]>::ends_with", "core::slice::<impl [T]>::is_empty",
     "core::ptr::const_ptr::<impl *const T>::", "core::ptr::mut_ptr::<impl *mut T>::cast",
